@@ -164,7 +164,10 @@ def split_ranges(intsize, step, start, end):
         nextstart = (start + diff if haslower else start) & not_mask
         nextend = (end - diff if hasupper else end) & not_mask
 
-        if shift + step >= intsize or nextstart > nextend:
+        if (shift + step >= intsize or nextstart > nextend
+            or (hasupper and end < diff)):
+            # (the last condition: rounding the end down to the previous
+            # block would go below zero, where the masking above wraps around)
             yield (start, setbits(end), shift)
             break
 
